@@ -880,21 +880,56 @@ fn c07(prop: &str, tier: &str, known: &[crate::runner::Known]) -> PureResult {
     let results: Arc<Mutex<Vec<((usize, usize, usize, usize), Option<i32>, String)>>> = Arc::new(Mutex::new(vec![]));
     let mut hs = vec![];
     let nthreads = std::thread::available_parallelism().map(|n| n.get()).unwrap_or(4).min(16);
+    let budget = Arc::new((Mutex::new(24usize), std::sync::Condvar::new()));
     for _ in 0..nthreads {
         let queue = queue.clone();
         let results = results.clone();
+        let budget = budget.clone();
         hs.push(std::thread::spawn(move || loop {
             let c = queue.lock().unwrap().pop();
             let Some(c) = c else { break };
-            let out = std::process::Command::new(std::env::current_exe().unwrap())
-                .args(["c07case", &c.0.to_string(), &c.1.to_string(), &c.2.to_string(), &c.3.to_string()])
-                .output();
+            // memory: in the thread-local-destructor context every release registers a participant
+            // of about 2 KiB that lives until it is reclaimed - 5 GiB for n = 2*10^6. One unit per
+            // 250 000 nodes (1.3 GiB measured), 24 units in flight at most.
+            let weight = (c.1 / 250_000).clamp(1, 24);
+            {
+                let (m, cv) = &*budget;
+                let mut free = m.lock().unwrap();
+                while *free < weight {
+                    free = cv.wait(free).unwrap();
+                }
+                *free -= weight;
+            }
+            let run = || {
+                std::process::Command::new(std::env::current_exe().unwrap())
+                    .args(["c07case", &c.0.to_string(), &c.1.to_string(), &c.2.to_string(), &c.3.to_string()])
+                    .output()
+            };
+            let mut out = run();
+            {
+                use std::os::unix::process::ExitStatusExt;
+                // killed from outside (SIGKILL: the kernel's out-of-memory killer) says nothing
+                // about the library: once more, and then it is a machinery problem
+                if matches!(&out, Ok(o) if o.status.signal() == Some(9)) {
+                    out = run();
+                }
+            }
+            {
+                let (m, cv) = &*budget;
+                *m.lock().unwrap() += weight;
+                cv.notify_all();
+            }
             match out {
                 Ok(o) => {
+                    use std::os::unix::process::ExitStatusExt;
                     let text = String::from_utf8_lossy(&o.stdout).trim().to_string();
                     let err = String::from_utf8_lossy(&o.stderr);
                     let last = err.lines().last().unwrap_or("").to_string();
-                    results.lock().unwrap().push((c, o.status.code(), format!("{} {}", text, last)));
+                    let code = match o.status.signal() {
+                        Some(9) => Some(-98),
+                        _ => o.status.code(),
+                    };
+                    results.lock().unwrap().push((c, code, format!("{} {}", text, last)));
                 }
                 Err(e) => results.lock().unwrap().push((c, Some(-99), e.to_string())),
             }
@@ -924,6 +959,7 @@ fn c07(prop: &str, tier: &str, known: &[crate::runner::Known]) -> PureResult {
         match code {
             Some(0) => {}
             Some(-99) => r.machinery.push(format!("{}: could not run: {}", desc, text)),
+            Some(-98) => r.machinery.push(format!("{}: killed from outside twice (SIGKILL, out of memory?): {}", desc, text)),
             Some(3) => acc.fail("nodes-not-reclaimed", format!("{}: {}", desc, text)),
             Some(5) => r.machinery.push(format!("{}: the collisions did not happen: {}", desc, text)),
             other => {
